@@ -332,7 +332,7 @@ fn compare(ctx: &mut Ctx, case: u64, g: &Generated, reference: &[u8], wac: &[u8]
 
 pub fn run(ctx: &mut Ctx) {
     run_witness(ctx);
-    let total = ctx.n(8_000, 12_000_000);
+    let total = ctx.n(40_000, 12_000_000);
     for case in ctx.cases(total) {
         if ctx.out_of_budget() {
             ctx.count("budget-stop");
